@@ -162,7 +162,7 @@ def real_cases(ck, tier):
 def run(tier, seed):
     ck = Check("C17", tier, seed)
     quick = tier == "quick"
-    ck.preds.update(c17_pool_ceil_window_outside=ceil_overhang_start, c17_conv_batch=conv_batch, c17_conv_groups_blocks=conv_groups_blocks, c17_conv_unequal_dilation=conv_unequal_dilation)
+    ck.preds.update(c17_conv_batch=conv_batch, c17_conv_groups_blocks=conv_groups_blocks, c17_conv_unequal_dilation=conv_unequal_dilation)
     ck.add_mc(vlib.tlc_model_check("MC_NN", "MC_NN_" + tier, timeout=2400))
     if quick:
         tab = conv_cases([(3, 3), (4, 3), (2, 4)], [1, 2, 3, 4], False) + pool_cases([(3, 3), (4, 3), (2, 4), (4, 4)], False) + linear_cases()
